@@ -36,6 +36,7 @@ fn vk_c03_hash_additive() {
     let want = c02::spec_key(&mb, r, g.en_passant_target.map(|s| s.idx()), g.player == Player::Black);
     kani::cover!(got & 1 == 1);
     assert!(got == want);
+    std::mem::forget(g);
 }
 
 //@ obligation: C03.toggles
